@@ -522,3 +522,23 @@ PROPS["C47"] = dict(
     trusted_base=MIR_TB,
     mir=True,
 )
+
+
+PROPS["C37"] = dict(
+    title="Resource assertions accept exactly the balances they describe",
+    functions=["radix_common::data::manifest::model::ManifestResourceConstraint::{validate_fungible, "
+               "is_valid_for_fungible_use, validate_non_fungible}", "GeneralResourceConstraint::{validate_fungible, "
+               "validate_amount, is_valid_for_fungible_use, is_valid_independent_of_resource_type}", "LowerBound / "
+               "UpperBound::{validate_amount, is_valid_for_fungible_use, equivalent_decimal}", "AllowedIds::"
+               "is_valid_for_fungible_use"],
+    bounds="fungible: every constraint form, every 192-bit amount / bound value, every non-negative balance; "
+           "non-fungible: the five non-general forms with constraint sets of <= 2 and balance sets of <= 3 distinct "
+           "symbolic ids",
+    outside="GeneralResourceConstraint on non-fungible balances (required ids + allow-list), normalize, the "
+            "AggregateResourceBalances / ManifestResourceConstraints collections, the worktop's use of these "
+            "validators, larger id sets",
+    assumptions=["balances are non-negative", "IndexSet behaves as a set (entry-list model: len, is_empty, difference, "
+                 "is_subset)"],
+    trusted_base=MIR_TB,
+    mir=True,
+)
